@@ -32,6 +32,43 @@ def _touches_indent(n):
     return out
 
 
+def hash_rule(chk, fx):
+    chk.rule('C10-R5', 'hashing a syntax-tree value does not look at positions: a hand-written `impl Hash` of erg_parser::ast / token reads no field of type Location (nor a line / '
+                       'column field) and only fields its PartialEq compares — the parser keeps decorators in a hash set and wraps the definition in iteration order, so a position in '
+                       'the hash makes the tree depend on the line a decorator stands on')
+    adts = {a['path'].split('::', 1)[1]: a for a in fx.adts('erg_parser')['adts']}
+    n = 0
+    for file in ('crates/erg_parser/ast.rs', 'crates/erg_parser/token.rs'):
+        fns = {T.norm(f['path']): f for f in fx.fns(file, 'erg_parser')}
+        for nm, f in sorted(fns.items()):
+            if not nm.endswith('::hash') or f.get('from_macro'):
+                continue
+            n += 1
+            ty = f.get('self_ty') or ''
+            a = adts.get(ty)
+            read = sorted({x['n'] for x in T.walk(f['body']) if x.get('k') == 'Field' and T.peel(x['x']).get('k') == 'Local' and T.peel(x['x'])['n'] == 'self'})
+            ftypes = {}
+            if a:
+                for v in a['variants']:
+                    for fl in v['f']:
+                        ftypes[fl['n']] = fl['t']
+            pos = [r for r in read if re.search(r'\bLocation\b', ftypes.get(r, '')) or r in POS_FIELDS]
+            eqf = fns.get(nm[:-len('hash')] + 'eq')
+            eq_read = None
+            if eqf is not None and not eqf.get('from_macro'):
+                eq_read = {x['n'] for x in T.walk(eqf['body']) if x.get('k') == 'Field'}
+            extra = [r for r in read if eq_read is not None and r not in eq_read]
+            if pos:
+                chk.bad('C10-R5', nm, 'hashes-position:%s' % ','.join(pos), '%s hashes %s (%s): equal trees at different positions hash differently, and every hash-ordered collection of '
+                        'them (the decorator set) is laid out by line numbers' % (nm, ', '.join(pos), ', '.join(ftypes.get(r, '?').replace('erg_common::error::', '') for r in pos)),
+                        file, f['line'])
+            elif extra:
+                chk.bad('C10-R5', nm, 'hash-not-eq:%s' % ','.join(extra), '%s hashes %s, which the type\'s PartialEq does not compare' % (nm, ', '.join(extra)), file, f['line'])
+            else:
+                chk.ok('C10-R5', nm, sample='%s hashes %s' % (nm, ', '.join(read) or '(nothing)'))
+    chk.floor('hand-written Hash impls of syntax-tree types', n, 12)
+
+
 def layout_rules(chk, fx):
     chk.rule('C10-R3', 'a line that holds only spaces and/or a line comment takes no part in block structure: every site of the lexer that pushes / pops indent_stack or builds an '
                        'Indent / Dedent token lies behind the line-holds-no-code filter at the head of Lexer::lex_space_indent_dedent (an `if` on a Lexer method that inspects '
@@ -217,6 +254,7 @@ def run(chk):
         else:
             chk.bad('C10-R2', 'Token::eq', 'fields', 'Token::eq reads %s: token equality depends on positions' % sorted(fields), 'crates/erg_parser/token.rs', tok[0]['line'])
     layout_rules(chk, fx)
+    hash_rule(chk, fx)
     return ('Effect reachability over the resolved call graph (erg_parser + erg_common) from the parser entry points, an ADT rule on derived equality of the syntax tree, '
             'and two structural rules on the lexer\'s indentation machinery (comment-only / blank lines are filtered before any Indent/Dedent decision; every `#` decision '
             'separates `#[`). That the other layout rewrites of the property (line continuations, redundant parentheses) yield the same tree is not decided.'), {}
